@@ -436,7 +436,7 @@ class Monitor:
         self.nel = len(SYSTEMS[case['system']]['elements'])
         self.base = ExplicitEulerIterator if case['iterator'] == 'euler' else RK4Iterator
         self.mech0 = {'model': case['model'], 'iterator': case['iterator']}
-        self.all_zero = all(s[1] == 0.0 for sd in spec.values() for s in sd.values())
+        self.all_zero_initial = self.all_zero
         self.steps = 0
         self.steps_in_call = 0
         self.call = 0
@@ -463,6 +463,11 @@ class Monitor:
                 self.stage_x.append((float(t), np.array(x_curr[0], dtype=float, copy=True)))
             return F
         model._getFluxes = wrapped        # instance-level: getdXdt looks it up on the instance
+
+    @property
+    def all_zero(self):
+        """every boundary VALUE currently in force is 0 (spec may be changed between solve calls)"""
+        return all(s[1] == 0.0 for sd in self.spec.values() for s in sd.values())
 
     # ---------------------------------------------------------------- iterator seam
     def iterator(self, f, t, X_old, updateX):
@@ -815,10 +820,10 @@ def run_case(case, R):
             R.observe('nontrivial_with_' + k.replace(' ', '_'))
         if len(case['calls']) > 1:
             R.observe('nontrivial_multicall')
-        sinks = sum(1 for sd in spec.values() for s in sd.values() if s[0] == 'comp' and s[1] == 0.0)
+        sinks = sum(1 for e in els for sd in 'LR' if case['bc'][e][sd][0] == 'comp' and case['bc'][e][sd][1] == 0.0)
         if sinks:
             R.observe('nontrivial_with_fixed_composition_zero')
-            if mon.all_zero:
+            if mon.all_zero_initial:
                 R.observe('nontrivial_sink_and_all_bc_values_zero')
                 if len(case['calls']) > 1:
                     R.observe('nontrivial_sink_all_zero_multicall')
